@@ -280,11 +280,28 @@ TrimNow(T, e, j) ==
                  ELSE MgrAppend(st[j], RawSlice(T, e.a, e.b), nolife)
      IN full.ok /\ Len(full.cs) > e.m[j].len
 
+\* first position of the post-state whose candle is not an unchanged survivor of the pre-state
+\* (new candles, and a forming bucket that was merged into again)
+FirstNew(pre, postj, drop) ==
+  LET S == {p \in 1..Len(postj) : p + drop > Len(pre) \/ Shell(pre[p + drop]) # Shell(postj[p])}
+  IN IF S = {} THEN Len(postj) + 1 ELSE CHOOSE p \in S : \A p2 \in S : p <= p2
+
+\* the property's own wording: each newly added candle has its look-back inside the window that
+\* survives -- Look(c) survivors in front of the first new candle, the last of them warmed up
+SurvivorsOK(T, e, post, j, n) ==
+  LET pre == st[j]
+      f   == FirstNew(pre, post[j], e.m[j].drop)
+  IN \/ f > Len(post[j])
+     \/ /\ f >= 2 /\ f - 1 >= Look(T.ind[n])
+        /\ f - 1 + e.m[j].drop <= Len(pre)
+        /\ WarmedOn(T.ind[n], pre[f - 1 + e.m[j].drop])
+
 LookbackOK(T, e, post) ==
   \A j \in 1..Len(T.mg) :
      (T.mg[j].life >= 0 /\ (e.m[j].drop > 0 \/ trimmed \/ TrimNow(T, e, j))) =>
         \A n \in {n \in 1..Len(T.ind) : T.ind[n].mg = j} :
-           \A q \in 1..Len(e.m[j].d) : e.m[j].d[q].i - 1 >= Warm(T.ind[n])
+           \/ \A q \in 1..Len(e.m[j].d) : e.m[j].d[q].i - 1 >= Warm(T.ind[n])
+           \/ (e.op = "append" /\ j \in mgs /\ n \in reg /\ SurvivorsOK(T, e, post, j, n))
 
 \* --------------------------------------------------------------------------
 \* read-only calls (C19, C20): the spec's Reading function on the observed state
